@@ -101,3 +101,19 @@ Theorem C08_source_boson_bad_iff : forall raw h w edge old tel,
     tdims h w old -> (2 * h * w <= List.length raw)%nat ->
     exists wd, src_boson raw edge old tel = Ok (if has_bad_pixel Boson raw h w edge then ERR_BAD_FRAME else 0) wd.
 Proof. exact boson_source_bad_iff. Qed.
+
+From TR Require Import proofs.Bridges.
+
+(* ---- the detector is fed by motion/motionprocessor.go as it is now (proofs/TieProc.v, restated in proofs/Bridges.v):
+   on every history the translated processor makes exactly the model's calls - every accepted frame reaches Detect exactly
+   once, inside or outside the recording window, recording or not; a bad frame never does *)
+Theorem C08_source_processor_feeds_detector : BProc.processor_source_tie_stmt.
+Proof. exact BProc.processor_source_tie. Qed.
+
+(* ---- the configuration the detector and the frame parsers are given (proofs/TieConf.v, restated in proofs/Bridges.v):
+   validateConfig changes nothing; every thermal-motion key - edge-pixels among them, 0 included - is the file's value
+   when present, else the camera model's default *)
+Theorem C08_source_config_validate_is_empty : BConf.validate_is_empty_stmt.
+Proof. exact BConf.validate_is_empty. Qed.
+Theorem C08_source_config_motion_keys : BConf.motion_keys_stmt.
+Proof. exact BConf.motion_keys. Qed.
